@@ -377,10 +377,6 @@ def o_c13(rec, world, hist):
 
 
 def o_c15(rec, world, hist):
-    if O._interrupt_inside_started_wait(rec):
-        # finding F6 (an interrupt inside Thread.start() leaves a worker that is never joined): what that worker
-        # reports after run has returned is accounted for under C17, where F6 is listed as a known finding
-        return []
     return O.o_progress(rec, world, hist)
 
 
